@@ -89,6 +89,13 @@ class Module:
         return isinstance(other, Module) and other.name == self.name
 
 
+def modname_of(rel: str, fn: str) -> str:
+    modname = rel[:-3].replace(os.sep, ".")
+    if fn == "__init__.py":
+        modname = modname[: -len(".__init__")]
+    return modname
+
+
 class Repo:
     """Parsed view of the package under ``root`` (default /repo)."""
 
@@ -96,8 +103,10 @@ class Repo:
 
     def __init__(self, root: str = "/repo", *, include_conformance: bool = False) -> None:
         self.root = os.path.abspath(root)
-        self.modules: dict[str, Module] = {}
-        self.by_relpath: dict[str, Module] = {}
+        self._loaded: dict[str, Module] = {}
+        self._paths: dict[str, tuple[str, str, bool]] = {}  # modname -> (path, relpath, is_pkg)
+        self._rel2mod: dict[str, str] = {}
+        self._raw: dict[str, bytes] = {}
         self._digest = hashlib.sha256()
         pkg_dir = os.path.join(self.root, self.PKG)
         if not os.path.isdir(pkg_dir):
@@ -112,22 +121,54 @@ class Repo:
                     continue
                 path = os.path.join(dirpath, fn)
                 rel = os.path.relpath(path, self.root)
-                with open(path, encoding="utf-8") as fh:
-                    src = fh.read()
-                self._digest.update(rel.encode() + b"\0" + src.encode() + b"\0")
-                try:
-                    tree = ast.parse(src, filename=rel)
-                except SyntaxError as e:
-                    raise AnalysisError(f"anchor=parse {rel}: {e}") from e
+                with open(path, "rb") as fh:
+                    raw = fh.read()
+                self._digest.update(rel.encode() + b"\0" + raw + b"\0")
+                self._raw[modname_of(rel, fn)] = raw
                 modname = rel[:-3].replace(os.sep, ".")
                 is_pkg = fn == "__init__.py"
                 if is_pkg:
                     modname = modname[: -len(".__init__")]
-                m = Module(modname, rel, path, src, tree, is_pkg)
-                self.modules[modname] = m
-                self.by_relpath[rel] = m
-        for m in self.modules.values():
-            self._index(m)
+                self._paths[modname] = (path, rel, is_pkg)
+                self._rel2mod[rel] = modname
+
+    def modules_with_text(self, token: str) -> list[Module]:
+        """Modules whose source text contains ``token`` (cheap pre-filter: a def/class named X implies
+        the text 'X' occurs), parsed on demand."""
+        tb = token.encode()
+        out = []
+        for name, raw in self._raw.items():
+            if tb in raw:
+                m = self.get_module(name)
+                if m is not None:
+                    out.append(m)
+        return out
+
+    def get_module(self, modname: str) -> Module | None:
+        m = self._loaded.get(modname)
+        if m is not None:
+            return m
+        ent = self._paths.get(modname)
+        if ent is None:
+            return None
+        path, rel, is_pkg = ent
+        with open(path, encoding="utf-8") as fh:
+            src = fh.read()
+        try:
+            tree = ast.parse(src, filename=rel)
+        except SyntaxError as e:
+            raise AnalysisError(f"anchor=parse {rel}: {e}") from e
+        m = Module(modname, rel, path, src, tree, is_pkg)
+        self._loaded[modname] = m
+        self._index(m)
+        return m
+
+    @property
+    def modules(self) -> dict[str, Module]:
+        """All modules (forces parsing of the whole package)."""
+        for name in self._paths:
+            self.get_module(name)
+        return self._loaded
 
     # ------------------------------------------------------------------ indexing
     @property
@@ -199,7 +240,8 @@ class Repo:
 
     # ------------------------------------------------------------------ lookups
     def module(self, relpath: str) -> Module:
-        m = self.by_relpath.get(relpath)
+        name = self._rel2mod.get(relpath)
+        m = self.get_module(name) if name is not None else None
         if m is None:
             raise AnalysisError(f"anchor=module {relpath} not found")
         return m
@@ -215,7 +257,8 @@ class Repo:
 
     def try_func(self, spec: str) -> FunctionInfo | None:
         rel, _, qn = spec.partition(":")
-        m = self.by_relpath.get(rel)
+        name = self._rel2mod.get(rel)
+        m = self.get_module(name) if name is not None else None
         return None if m is None else m.functions.get(qn)
 
     def cls(self, spec: str) -> ClassInfo:
@@ -250,12 +293,12 @@ class Repo:
         imp = m.imports.get(name)
         if imp is not None:
             if imp[0] == "module":
-                return self.modules.get(imp[1])
+                return self.get_module(imp[1])
             _, mod, attr = imp
-            target = self.modules.get(mod)
+            target = self.get_module(mod)
             if target is None:
                 return None
-            sub = self.modules.get(f"{mod}.{attr}")
+            sub = self.get_module(f"{mod}.{attr}")
             r = self.resolve_name_global(target, attr, _depth + 1)
             if r is not None:
                 return r
@@ -312,7 +355,7 @@ class Repo:
             return m
         imp = m.imports.get(name)
         if imp and imp[0] == "name":
-            target = self.modules.get(imp[1])
+            target = self.get_module(imp[1])
             if target is not None:
                 return self._owner_of_const(target, imp[2], _depth + 1)
         return None
